@@ -62,7 +62,7 @@ ASSUMPTIONS = ["numpy, pandas, copy.deepcopy and pickle are trusted to reproduce
                "the harness oracle diff() defines 'observably different' (type, value, dtype, shape, names, index, categories, "
                "fields, code/defaults/closure); memory layout and block structure are not observable differences"]
 BUDGET = {"quick": 30, "thorough": 520}
-CASE_TIMEOUT = 120
+CASE_TIMEOUT = 1000
 FLOORS = {
     "quick": {"evaluations": 1, "distinct_nontrivial": 1},
     "thorough": {"evaluations": 1, "distinct_nontrivial": 1},
@@ -79,7 +79,52 @@ TECHNIQUE = ("runtime monitoring: return-value oracle on tokenize() (structural 
              "repeat/deepcopy/pickle/rebuild and cross-interpreter comparison for determinism), complete atom-pair space + random")
 
 # genuine defects found on the unchanged tree (details: findings_proposed/C12.md)
-PENDING = {}
+PENDING = {
+    # 1. normalize_array hashes ravel(order="K") bytes; strides are not part of the token
+    "collision:ndarray:same-buffer-bytes&different-memory-order":
+        "arrays of equal dtype/shape whose memory-order bytes coincide (C vs F order ...) share a token although their values differ",
+    "nondeterminism:pickle-roundtrip:noncontiguous-view":
+        "a view that is neither C- nor F-contiguous and its pickle round trip get different tokens",
+    "nondeterminism:pickle-roundtrip:broadcast-view": "a broadcast (zero-stride) view and its pickle round trip get different tokens",
+    "nondeterminism:deepcopy:broadcast-view": "a broadcast (zero-stride) view and its deep copy get different tokens",
+    "nondeterminism:deepcopy:DataFrame&block-not-c-contiguous":
+        "a frame holding an F-ordered block (DataFrame(ndarray, copy=False)) and its deep copy get different tokens",
+    # 2. "-".join(x.flat) for object arrays of str
+    "collision:object-array:joined-strings-coincide":
+        "object/str arrays ['a-b','c'] vs ['a','b-c'] (also as Index, Series, columns, MultiIndex level, categories) share a token",
+    # 3. normalize_mmap hashes the bytes only
+    "collision:memmap:different-shape": "memmaps with the same bytes and different shapes share a token",
+    "collision:memmap:different-dtype": "memmaps with the same bytes and different dtypes share a token",
+    # 4./5. normalize_dataframe tokenizes the block arrays without their column placement
+    "collision:DataFrame:same-blocks&different-column-block-assignment":
+        "frames with the same block arrays assigned to the column names differently share a token",
+    "nondeterminism:deepcopy:DataFrame&unconsolidated-blocks":
+        "df with several blocks of one dtype (after df[c]=...) and df.copy()/deepcopy get different tokens",
+    "nondeterminism:deepcopy:DataFrame&unconsolidated-blocks&block-not-c-contiguous":
+        "same, frame also holds an F-ordered block",
+    # 6. normalize_extension_array == normalize_token(np.asarray(arr))
+    "collision:type:generic-extension-array-vs-ndarray": "IntegerArray/FloatingArray/BooleanArray/StringArray/NumpyExtensionArray share the token of np.asarray(arr)",
+    "collision:type:generic-extension-array-vs-generic-extension-array":
+        "extension arrays of different classes with the same np.asarray() share a token (Int64 [1,NA] vs Float64 [1.0,NA])",
+    "collision:extension-array:different-dtype:Int-vs-Int&has-NA": "Int64 [1,NA] vs Int32 [1,NA] share a token (also as Index / DataFrame column)",
+    "collision:extension-array:different-dtype:str-vs-string": "StringDtype(na_value=nan) vs StringDtype(na_value=NA) arrays share a token",
+    "collision:extension-array:different-values&equal-as-float64&has-NA":
+        "nullable integer arrays with NA whose values differ only beyond 2**53 share a token (asarray gives float64)",
+    # 7. sorted(..., key=str) leaves keys with equal str() in insertion / iteration order
+    "nondeterminism:equal-values:dict-insertion-order&keys-with-equal-str": "{1:'a','1':'b'} and {'1':'b',1:'a'} get different tokens",
+    "nondeterminism:equal-values:set-insertion-order&elements-with-equal-str": "equal sets holding 1 and '1' built in another order get different tokens",
+    "nondeterminism:deepcopy:set&elements-with-equal-str": "a set holding 1 and '1' and its deep copy get different tokens",
+    "nondeterminism:pickle-roundtrip:set&elements-with-equal-str": "a set holding 1 and '1' and its pickle round trip get different tokens",
+    # 8. frozenset has no normalizer (pickled in iteration order)
+    "nondeterminism:equal-values:frozenset-insertion-order": "frozenset([0, 8]) and frozenset([8, 0]) get different tokens",
+    "nondeterminism:deepcopy:frozenset&pickle-bytes-differ": "a frozenset with colliding hashes and its deep copy get different tokens",
+    "nondeterminism:pickle-roundtrip:frozenset&pickle-bytes-differ": "a frozenset with colliding hashes and its pickle round trip get different tokens",
+    # 9. 0-d object arrays: (x.item(), dtype) goes through str()
+    "collision:0-d-object-array:elements-with-equal-str": "0-d object arrays holding large arrays that differ in the middle share a token (abbreviated repr)",
+    # 10. object arrays through _normalize_pickle: pickle bytes encode object identity / layout of nested arrays
+    "nondeterminism:pickle-roundtrip:object-array&pickle-bytes-differ": "np.array([b'b', 1], dtype=object) and its pickle round trip get different tokens",
+    "nondeterminism:deepcopy:object-array&pickle-bytes-differ": "an object array holding a non-contiguous ndarray and its deep copy get different tokens",
+}
 
 XPROC_SEEDS = ("0", "1", "random")
 
@@ -96,13 +141,15 @@ def cases(tier, seed):
     for i in range(n):
         for j in range(i + 1, n):
             yield {"space": "exhaustive", "f": "atoms", "i": i, "j": j}
-    nb, per = (16, 600) if tier == "quick" else (128, 600)
-    for _ in range(nb):
-        yield {"f": "xproc", "cs": rng.randrange(2 ** 31), "n": per}
+    nb, per = (32, 600) if tier == "quick" else (192, 800)
     fams = sorted(V.FAMILIES)
     weights = [V.FAMILIES[f][1] for f in fams]
-    total = 30000 if tier == "quick" else 420000
-    for _ in range(total):
+    total = 60000 if tier == "quick" else 800000
+    head = 3200          # a slice of every pair family runs before the (slow) interpreter batches
+    for k in range(total):
+        if k == head:
+            for _ in range(nb):
+                yield {"f": "xproc", "cs": rng.randrange(2 ** 31), "n": per}
         yield {"f": "pair", "fam": rng.choices(fams, weights)[0], "cs": rng.randrange(2 ** 31)}
 
 
@@ -241,7 +288,7 @@ def _order_feature(v, w):
         same_order = len(lv) == len(lw) and all(a is b or (type(a) is type(b) and a == b) for a, b in zip(lv, lw))
         if not same_order:
             f = t.__name__ + "-insertion-order"
-            if len({str(k) for k in lv}) < len(lv):
+            if t is not frozenset and len({str(k) for k in lv}) < len(lv):
                 f += "&" + ("keys" if t is dict else "elements") + "-with-equal-str"
             return f
         if t is dict:
@@ -370,7 +417,7 @@ def _run_xproc(case, ctx):
         env = dict(os.environ)
         env["PYTHONHASHSEED"] = hs
         p = subprocess.run([sys.executable, "-m", "vf.props.c12", "--child"], input=payload, capture_output=True,
-                           text=True, env=env, timeout=100, cwd=os.getcwd())
+                           text=True, env=env, timeout=300, cwd=os.getcwd())
         if p.returncode != 0:
             raise RuntimeError("C12 child interpreter failed (hash seed %s): %s" % (hs, p.stderr[-1500:]))
         res = json.loads(p.stdout)
@@ -442,6 +489,14 @@ def run_case(case, ctx):
             v, w = V.build(dv), V.build(dw)
         except V.Unbuildable as e:
             ctx.reject(str(e))
+            return
+        except (ValueError, TypeError, OverflowError) as e:
+            from vf.core.ctx import dask_frame
+
+            if dask_frame(e) is not None:
+                raise
+            # numpy / pandas refuse the described value (kept rare by the skipped-fraction floor)
+            ctx.reject("reference refused the description: %s: %s" % (type(e).__name__, e))
             return
         ctx.op("fam:" + fam)
         tv = _check_value(ctx, dv, v)
